@@ -217,6 +217,7 @@ pub fn worker(ctx: &mut Ctx) {
         let firing: Vec<&String> = singles.iter().filter(|(_, v)| !v.is_empty()).map(|(k, _)| k).collect();
         let wit_text = text.clone();
         let nontrivial = firing.len() >= 2;
+        let mut reused = LintGroup::new_curated(dict.clone(), dialect);
         for ci in 0..ncfg {
             ctx.report.evaluations += 1;
             let u = gen_user_cfg(&mut r, &keys);
@@ -254,6 +255,19 @@ pub fn worker(ctx: &mut Ctx) {
             for (rule, n) in &ran {
                 if !u.set.get(rule).copied().unwrap_or(false) {
                     ctx.report.finding("C11", "disabled-rule-executed", wit_text.len(), cfg_desc, || format!("rule {rule} is not enabled but was executed and produced {n} lint(s)"));
+                }
+            }
+            // the same configuration on a linter that has already served other configurations of
+            // this document (its chunk cache is keyed by a hash of the configuration)
+            reused.set_all_rules_to(None);
+            for (k, v) in &u.set {
+                reused.config.set_rule_enabled(k, *v);
+            }
+            if let Ok(again) = guarded(|| reused.lint(&doc)) {
+                if sorted_keys(&again) != sorted_keys(&got) {
+                    ctx.report.finding("C11", "reused-linter", wit_text.len(), cfg_desc, || {
+                        "a linter that served other configurations before gives different lints than a fresh one under the same configuration".to_string()
+                    });
                 }
             }
             let (g, e) = (sorted_keys(&got), sorted_keys(&expected));
